@@ -225,8 +225,9 @@ def probe_rewards(ctx, pg, cfg, ss, kind, rewards, probe):
         for key, v in zip(rkeys, real):
             m = model[key]
             v = float(v)
-            # integers and correctly rounded quotients of small integers: the double nearest to the rational
-            if not (v == float(m)):
+            # integers / quotients of small integers are the double nearest to the rational; products of such a
+            # quotient with an integer (deme fraction x block count) carry one more rounding: a few ulp
+            if not (v == float(m) or abs(v - float(m)) <= 8 * 2.0 ** -53 * abs(float(m))):
                 ctx.corr_break(f'{probe}:reward', cfg=cfg, kind=kind, reward=rname(r), state=str(key), model=str(m),
                                real=v)
                 break
